@@ -7,14 +7,14 @@
     xmlschema/resources/xml_loader.py:220-283   _lazy_iterparse   (namespace stack: `nsStep true`)
     xmlschema/resources/xml_loader.py:285-333   _parse            (namespace stack: `parseStep`; since commit
                                                                    6d25df9 its 'end' branch pops too)
-    xmlschema/resources/xml_resource.py:539-583 iter              (lazy branch)
-    xmlschema/resources/xml_resource.py:593-659 iter_depth        (modes 1..5, ancestors tracking)
-    xmlschema/resources/xml_resource.py:661-726 iterfind          (level logic, select_all paths)
-    xmlschema/validators/schemas.py:1285-1400   iter_errors       (loop over iter_depth(mode=4) / get_element /
+    xmlschema/resources/xml_resource.py:542-586 iter              (lazy branch)
+    xmlschema/resources/xml_resource.py:596-662 iter_depth        (modes 1..5, ancestors tracking)
+    xmlschema/resources/xml_resource.py:664-729 iterfind          (level logic, select_all paths)
+    xmlschema/validators/schemas.py:1285-1401   iter_errors       (loop over iter_depth(mode=4) / get_element /
                                                                    skip rule / the chunk's own xmlns declarations
-                                                                   pushed (1374-1376, commit c3a1309) / root with
+                                                                   pushed (1374-1377, commit c3a1309) / root with
                                                                    max_depth = lazy depth / merge of the identity
-                                                                   counters (1391-1398, commit 851aaad))
+                                                                   counters (1392-1399, commit 851aaad))
     xmlschema/validators/groups.py:993,1042-1056 max_depth cut
 -/
 namespace XsVerif.Lazy
@@ -142,7 +142,7 @@ inductive Kind where
   | incomplete | full | sub
   deriving Repr, DecidableEq
 
-/-- `iter` (xml_resource.py:549-580): `level`, the deque `subtree_elements` (head = left end), yields. -/
+/-- `iter` (xml_resource.py:555-586): `level`, the deque `subtree_elements` (head = left end), yields. -/
 structure ItSt where
   level : Nat
   deq : List Nat
@@ -165,7 +165,7 @@ def iterStep (d : Nat) (sel : String → Bool) (s : ItSt) : Ev → ItSt
 def iterRun (d : Nat) (sel : String → Bool) (t : Tree) : List (Nat × Kind) :=
   ((events t).foldl (iterStep d sel) ⟨0, [], []⟩).out
 
-/-- `iter_depth` (xml_resource.py:612-657) with ancestors tracking; yields (element, copy of `ancestors`). -/
+/-- `iter_depth` (xml_resource.py:618-662) with ancestors tracking; yields (element, copy of `ancestors`). -/
 structure IdSt where
   level : Nat
   anc : List Nat
@@ -186,7 +186,7 @@ def idStep (mode d : Nat) (s : IdSt) : Ev → IdSt
 def iterDepthRun (mode d : Nat) (t : Tree) : List (Nat × List Nat) :=
   ((events t).foldl (idStep mode d) ⟨0, [], []⟩).out
 
-/-- `iterfind` level logic for a `select_all` path of depth `pd ≥ lazy depth` (xml_resource.py:705-724). -/
+/-- `iterfind` level logic for a `select_all` path of depth `pd ≥ lazy depth` (xml_resource.py:711-729). -/
 def ifStep (pd : Nat) (s : IdSt) : Ev → IdSt
   | .start i _ => { s with level := s.level + 1, anc := if s.level < pd then s.anc ++ [i] else s.anc }
   | .stop i _ =>
@@ -310,11 +310,11 @@ def chunkErrs (v : Val D E) (pick : Option D → Tree → Option D) (k : Nat) (p
     | some d' => eagerT v p.1 d' p.2.2
     | none => []
 
-/-- What the lazy driver does with a chunk (schemas.py:1363-1371): the declaration is looked up
+/-- What the lazy driver does with a chunk (schemas.py:1364-1372): the declaration is looked up
     *statically* (`get_element(tag, '/root/*…')`); without a match an element carrying xsi:type is
     validated against a freshly created xs:anyType element, any other chunk is skipped.
     The chunk is then validated by the same `XsdElement.raw_decode` as in the eager run and — since commit
-    c3a1309 (schemas.py:1374-1376) — with its own namespace declarations in scope, as in the eager run where
+    c3a1309 (schemas.py:1374-1377) — with its own namespace declarations in scope, as in the eager run where
     the parent group pushes them: this is what allows one `Val` for both runs. -/
 def lazyPick (static created : Tree → Option D) : Option D → Tree → Option D :=
   fun _ c => match static c with
@@ -324,7 +324,7 @@ def lazyPick (static created : Tree → Option D) : Option D → Tree → Option
 /-- The governing declaration (what the eager run uses). -/
 def govPick : Option D → Tree → Option D := fun d _ => d
 
-/-- Lazy validation at lazy depth `k ≥ 1` (schemas.py:1334-1400): chunks in document order (selector
+/-- Lazy validation at lazy depth `k ≥ 1` (schemas.py:1334-1401): chunks in document order (selector
     `iter_depth(mode=4)`), then the pruned root with `max_depth = k`, then `_validate_references`
     (IDREFs first, then the key references that are still enabled: those of the root, which the
     depth-limited root run does not check itself, elements.py:854-866). -/
